@@ -315,6 +315,8 @@ class Sim(object):
         self.idle_hooks = []        # callables run when everything is blocked (before time advance); return True if they made progress
         self.sw_h = hashlib.blake2b(digest_size=8)   # digest of the switch sequence only
         self.time_jumps = 0
+        self.drift = 0.0            # per-read clock creep (buggify knob, see sync.make_time_module)
+        self.nreads = 0
 
     # -- logging -------------------------------------------------------------------
     def ev(self, *fields):
